@@ -475,6 +475,44 @@ fn zero_valued_coins(run: &Run, fams: &[Family]) {
     }
 }
 
+/// Two spends in one batch (and in one block): A spends the first coin of a family and carries the covenant; B spends the family's
+/// second coin and carries the covenant, no covenant at all, or other bytes of the same length.  What A carries is A's: the batch
+/// is acceptable only if each transaction is approved by covenants *it* carries, in either order, as a batch and as a block.
+fn companions_in_one_batch(run: &Run, fams: &[Family], fxs: &[Fixture]) {
+    let fx = &fxs[1];
+    let parent = None::<()>;
+    let _ = parent;
+    let mut cases = 0u64;
+    for f in 0..fams.len() {
+        let (a, a_in) = build_spend(fams, fx, &[(f, 0)], CovList::Complete, SigVariant::Valid, true, TxKind::Normal);
+        let (a_ok, _) = expected(&a, &a_in, fx.last_header);
+        for cv in [CovList::Complete, CovList::MissingFirst, CovList::WrongBytesSameLength] {
+            let (b, b_in) = build_spend(fams, fx, &[(f, 1)], cv, SigVariant::Valid, true, TxKind::Normal);
+            let (b_ok, why) = expected(&b, &b_in, fx.last_header);
+            for (order, txs) in [("carrier first", vec![a.clone(), b.clone()]), ("carrier last", vec![b.clone(), a.clone()])] {
+                cases += 1;
+                run.transition();
+                let mut st = fx.state.clone();
+                let got = guard(|| st.apply_tx_batch(&txs));
+                run.validated();
+                match got {
+                    Ok(Ok(())) if !(a_ok && b_ok) => run.violation(
+                        "C04",
+                        format!("spent-without-approval/in-a-batch-with-a-carrier/{:?}", cv),
+                        format!("{}: a batch of two spends of [{}] coins ({}) was accepted although {} - the other transaction of the batch carries the covenant", fx.label, fams[f].name, order, if !b_ok { why.clone() } else { "the carrier itself is not approved".into() }),
+                        json!({"fixture": fx.label, "family": fams[f].name, "order": order, "second_spend_covenants": format!("{:?}", cv), "txs": txs.iter().map(tx_json).collect::<Vec<_>>()}),
+                    ),
+                    Ok(Ok(())) => run.outcome("companions:accepted-as-expected"),
+                    Ok(Err(_)) if a_ok && b_ok => run.outcome("companions:rejected-although-both-approved(recorded)"),
+                    Ok(Err(_)) => run.outcome("companions:rejected-as-expected"),
+                    Err(_) => run.outcome("panic(reported under C09)"),
+                }
+            }
+        }
+    }
+    run.set("companions_in_one_batch", json!({"cases": cases, "families": fams.len()}));
+}
+
 pub fn run(run: &Run) {
     let thorough = run.thorough();
     let fams = families();
@@ -555,6 +593,7 @@ pub fn run(run: &Run) {
             }
         });
     }
+    companions_in_one_batch(run, &fams, &fxs);
     genesis_spends(run, &fams);
     large_header_readers(run);
     zero_valued_coins(run, &fams);
